@@ -106,6 +106,11 @@ class CompileWorld(GWorld):
                 else:
                     out.extend(TV(E.idx(s, k), 0, False) for k in range(n))
             return out
+        if name == "casadi.is_equal":
+            a, b = args[0], args[1]
+            if isinstance(a, TV) and isinstance(b, TV):
+                return a.t == b.t
+            return a is b
         if name == "casadi.depends_on":
             a, b = args
             if not isinstance(a, TV) or not isinstance(b, TV):
@@ -145,6 +150,32 @@ def build_network(prog: Program, sym_type="SX", variant="merge", same_names=Fals
                  segments (entry names of an SX vector stop sorting like their indices)."""
     w = CompileWorld(prog, sym_type)
     g, K = w.graph, w.consts
+    if variant == "interleaved":
+        # N1(O1 ramp: r) -L1-> N2(O2 simplified ramp: q) -L2-> N3(O3 ramp: r) -L3-> N4(D1): the action
+        # names r, q, r interleave along the element order
+        N = {k: w.node(k) for k in ("N1", "N2", "N3", "N4")}
+        L1, L2, L3 = w.link("L1", "Link", nseg=2), w.link("L2", "Link", nseg=1), w.link("L3", "Link", nseg=2)
+        O1 = w.origin("O1", "MeteredOnRamp", "out")
+        O2 = w.origin("O2", "SimplifiedMeteredOnRamp", "limited")
+        O3 = w.origin("O3", "MeteredOnRamp", "in")
+        D1 = w.dest("D1", "Destination")
+        g.add_node(N["N1"], **{K["ORIGINENTRY"]: O1})
+        g.add_node(N["N2"], **{K["ORIGINENTRY"]: O2})
+        g.add_node(N["N3"], **{K["ORIGINENTRY"]: O3})
+        g.add_node(N["N4"], **{K["DESTINATIONENTRY"]: D1})
+        g.add_edge(N["N1"], N["N2"], **{K["LINKENTRY"]: L1})
+        g.add_edge(N["N2"], N["N3"], **{K["LINKENTRY"]: L2})
+        g.add_edge(N["N3"], N["N4"], **{K["LINKENTRY"]: L3})
+        return Net(w, [L1, L2, L3], [O1, O2, O3], [D1], N)
+    if variant == "ring":
+        # N1 -L1-> N2 -L2-> N1: a valid network without any origin or destination
+        N = {k: w.node(k) for k in ("N1", "N2")}
+        L1, L2 = w.link("L1", "Link", nseg=2), w.link("L2", "Link", nseg=1)
+        g.add_node(N["N1"])
+        g.add_node(N["N2"])
+        g.add_edge(N["N1"], N["N2"], **{K["LINKENTRY"]: L1})
+        g.add_edge(N["N2"], N["N1"], **{K["LINKENTRY"]: L2})
+        return Net(w, [L1, L2], [], [], N)
     if variant == "long":
         N = {k: w.node(k) for k in ("N1", "N2")}
         L1 = w.link("L1", "Link", nseg=12)
@@ -267,13 +298,16 @@ def to_function(prog: Program, net: Net, compact=0, more_out=False, parameters=N
         kw["parameters"] = parameters
     kw.update(other or {})
     try:
-        it.call_function(FuncV(fi, w.EXPL, defcls=ENGINE_CLS["casadi"]), [w.net], kw)
+        ret = it.call_function(FuncV(fi, w.EXPL, defcls=ENGINE_CLS["casadi"]), [w.net], kw)
     except ScanPassed:
         return ("scan-passed", it)
     except Raised as e:
         return ("raise", e, it)
     cap = w.captured.get("Function")
     if cap is None:
+        if isinstance(ret, Obj) and ret.kind == "function":
+            # no casadi.Function was built by this call: a function object made earlier is handed back
+            return ("reused", ret, it)
         raise AnalysisError("to_function returned without constructing a casadi.Function")
     args, kwargs = cap
     if len(args) < 5:
@@ -281,6 +315,58 @@ def to_function(prog: Program, net: Net, compact=0, more_out=False, parameters=N
     name, args_in, args_out, names_in, names_out = args[:5]
     opts = args[5] if len(args) > 5 else kwargs.get("opts", {})
     return ("function", list(names_in), list(args_in), list(names_out), list(args_out), opts, it)
+
+
+def recompile_after_restep(prog: Program, sym_type="SX", compact=1, more_out=False):
+    """compile, step the same network again with another sampling time, compile again with the
+    same options on the same engine object: (first result, second result, name of the second T).
+    The second function must be built from the results of the second step."""
+    net = build_network(prog, sym_type, variant="merge")
+    w = net.w
+    run_step(prog, net)
+    first = to_function(prog, net, compact=compact, more_out=more_out, other={"T": TV(E.S("T"), 0, False)})
+    it2 = w.interp()
+    fi2 = prog.function("sym_metanet.network", "Network.step")
+    kw2 = dict(w.other_params(True, True))
+    kw2["T"] = TV(E.S("T2"), 0, False, "parameter T")
+    kw2["engine"] = w.EXPL
+    it2.call_function(FuncV(fi2, w.net, defcls=NET), [], kw2)
+    second = to_function(prog, net, compact=compact, more_out=more_out, other={"T": TV(E.S("T2"), 0, False)})
+    return net, first, second
+
+
+def check_recompile(rep, prog, where, rule="recompiled-after-restep"):
+    """shared by the checks whose property speaks about the function of the *most recent* step"""
+    from . import model as M_
+
+    n = 0
+    for st in ("SX", "MX"):
+        for compact in (0, 1, 2):
+            n += 1
+            label = f"{st} compact={compact}: step, compile, step again (other T), compile again on the same engine"
+            try:
+                net, first, second = recompile_after_restep(prog, st, compact)
+            except Raised as e:
+                rep.refuted(rule, label, where, f"raises {e.exc}: {e.msg}", key=f"recompile|raise|{e.exc}")
+                continue
+            if second[0] == "reused":
+                rep.refuted(rule, label, where, "the second to_function returns a function object made before the network "
+                            "was stepped again (its results are those of the earlier step)", key="recompile|reused")
+                continue
+            if second[0] != "function" or first[0] != "function":
+                bad = second if second[0] != "function" else first
+                rep.refuted(rule, label, where, f"to_function raises {bad[1].exc}: {bad[1].msg}",
+                            key=f"recompile|raise|{bad[1].exc}")
+                continue
+            syms = set()
+            for a in second[4]:
+                if isinstance(a, TV):
+                    syms |= M_.symbols(a.t)
+            ok = ("s", "T2") in syms and ("s", "T") not in syms
+            rep.check(ok, rule, label, where, "the results of the second function do not depend on the sampling time of "
+                      "the most recent step only (T2): " + ", ".join(sorted(s[1] for s in syms if s[0] == "s" and s[1] in ("T", "T2"))),
+                      key="recompile|stale")
+    return n
 
 
 def flatten(w: CompileWorld, v, nz) -> list:
